@@ -167,3 +167,494 @@ def run(ctx):
             if isinstance(n, ast.Name) and n.id == "leapfrog_step" and isinstance(n.ctx, ast.Load):
                 users += 1
     ctx.check("R32.1", f"{MOD}::samplers use leapfrog_step as their stepper", users >= 1, f"{users} references", fi)
+
+
+# ---------------------------------------------------------------------------------------------------------------- R32.2-R32.5
+OO = "nifty.re.hmc_oo"
+
+
+def _const(e):
+    class CE(ConstEval):
+        def eval(self, n):
+            if isinstance(n, ast.BinOp) and isinstance(n.op, ast.Div):
+                return self.eval(n.left) / self.eval(n.right)
+            return super().eval(n)
+    try:
+        v = CE({}).eval(e)
+        return None if v is TOP else v
+    except Exception:
+        return None
+
+
+def _is_neg_inf(e):
+    return isinstance(e, ast.UnaryOp) and isinstance(e.op, ast.USub) and src(e.operand).split(".")[-1] in ("inf", "infty", "Inf")
+
+
+from ..poly import poly as _poly_, p_diff as _pdiff, p_str as _pstr  # noqa: E402
+
+
+def _poly(e, env):
+    return _poly_(e, env)
+
+
+def r32_2(ctx, m):
+    """momenta are drawn from N(0, M) for the same M whose inverse defines the kinetic energy and the drift"""
+    ctx.rule("R32.2", "mass matrix consistency: the samplers draw momenta with `mass_matrix_sqrt = inverse_mass_matrix ** -1/2` "
+                      "(the attribute handed to sample_momentum_from_diagonal), the kinetic energy is vdot(M^-1, p^2/2) and the "
+                      "stepper's kinetic gradient M^-1 * p is its derivative; sample_momentum_from_diagonal scales unit normals "
+                      "by that square root", floor=5)
+    S = m.cls(OO, "_Sampler")
+    ini = S.methods["__init__"]
+    ctx.saw_func(ini)
+    # attribute handed to the momentum sampler
+    attrs = set()
+    sites = 0
+    oo = m.module(OO)
+    for c in ast.walk(oo.tree):
+        if isinstance(c, ast.Call) and call_name(c) == "sample_momentum_from_diagonal":
+            sites += 1
+            for k in c.keywords:
+                if k.arg == "mass_matrix_sqrt":
+                    attrs.add(src(k.value))
+    key = f"{OO}::momentum refreshments use one attribute of the sampler"
+    if sites < 2 or len(attrs) != 1 or not next(iter(attrs)).startswith("self."):
+        ctx.und("R32.2", key, f"{sites} call sites, arguments {sorted(attrs)}", ini)
+        return
+    ctx.ok("R32.2", key, f"{sites} call sites pass {sorted(attrs)}", ini)
+    an = next(iter(attrs))[5:]
+    defs = [st for st in walk_no_nested(ini.node) if isinstance(st, ast.Assign) and any(src(t) == f"self.{an}" for t in st.targets)]
+    key = f"{ini.key}::momentum scale = (inverse mass) ** -1/2"
+    if len(defs) != 1:
+        ctx.und("R32.2", key, f"{len(defs)} definitions of self.{an}", ini)
+    else:
+        v = defs[0].value
+        verdict, det = None, src(v)
+        if isinstance(v, ast.BinOp) and isinstance(v.op, ast.Pow) and src(v.left) == "self.inverse_mass_matrix":
+            ex = _const(v.right)
+            if ex is not None:
+                verdict = abs(ex + 0.5) < 1e-15
+                det = f"exponent {ex}: momenta would be drawn with covariance M^{-2 * ex:g}... the kinetic energy uses M^-1, so the exponent must be -0.5"
+        elif isinstance(v, ast.BinOp) and isinstance(v.op, ast.Div) and _const(v.left) == 1 and isinstance(v.right, ast.Call) \
+                and call_name(v.right) == "sqrt" and src(v.right.args[0]) == "self.inverse_mass_matrix":
+            verdict = True
+        ctx.check("R32.2", key, verdict, det, ini, defs[0])
+    # kinetic energy and its gradient
+    ke = [n for n in ini.node.body if isinstance(n, ast.FunctionDef) and n.name == "kinetic_energy"]
+    kg = [st for st in walk_no_nested(ini.node) if isinstance(st, ast.Assign) and isinstance(st.value, ast.Lambda)
+          and any(isinstance(t, ast.Name) and "kinetic" in t.id and "grad" in t.id for t in st.targets)]
+    key = f"{ini.key}::kinetic gradient is the derivative of the kinetic energy"
+    if len(ke) != 1 or len(kg) != 1:
+        ctx.und("R32.2", key, f"{len(ke)} kinetic_energy defs, {len(kg)} gradient lambdas", ini)
+    else:
+        kef, lam = ke[0], kg[0].value
+        r = [x for x in walk_no_nested(kef) if isinstance(x, ast.Return)]
+        ea, eb = [a.arg for a in kef.args.args][:2]
+        la, lb = [a.arg for a in lam.args.args][:2]
+        verdict, det = None, None
+        if len(r) == 1:
+            # scalar model: vdot(a, b) -> a*b ; d/dp
+            try:
+                K = _poly(r[0].value, {ea: "Mi", eb: "P"})
+                G = _poly(lam.body, {la: "Mi", lb: "P"})
+                from fractions import Fraction
+                verdict = _pdiff(K, "P") == G and K == {(("Mi", 1), ("P", 2)): Fraction(1, 2)}
+                det = f"K = {_pstr(K)}, gradient = {_pstr(G)}"
+            except KeyError as exc:
+                det = f"term not polynomial: {exc}"
+        ctx.check("R32.2", key, verdict, det, ini, kg[0])
+    # the stepper is leapfrog_step with (potential gradient, kinetic gradient) in this order
+    st = [s_ for s_ in walk_no_nested(ini.node) if isinstance(s_, ast.Assign) and any(src(t) == "self.stepper" for t in s_.targets)]
+    okk = None
+    if len(st) == 1 and isinstance(st[0].value, ast.Call) and call_name(st[0].value) == "partial":
+        a = st[0].value.args
+        okk = len(a) == 3 and src(a[0]) == "leapfrog_step" and "potential" in src(a[1]) and "kinetic" in src(a[2]) and kg and src(a[2]) == kg[0].targets[0].id
+        pg = [s_ for s_ in walk_no_nested(ini.node) if isinstance(s_, ast.Assign) and len(a) == 3 and src(s_.targets[0]) == src(a[1])]
+        okk = okk and len(pg) == 1 and src(pg[0].value) == "grad(self.potential_energy)"
+    ctx.check("R32.2", f"{ini.key}::stepper = leapfrog_step(grad(potential), kinetic gradient)", okk, None, ini)
+    # the momentum sampler scales unit normals
+    sm = m.func(MOD, "sample_momentum_from_diagonal")
+    ctx.saw_func(sm)
+    cfg = cfg_of(sm)
+    rd = cfg.reaching_defs(sm.params())
+    rets = [n for n in cfg.nodes if n.kind == "stmt" and isinstance(n.ast, ast.Return)]
+    key = f"{sm.key}::momentum = sqrt(M) * unit normal, leaf by leaf"
+    if len(rets) != 1:
+        ctx.und("R32.2", key, f"{len(rets)} returns", sm)
+    else:
+        e = inline_at(cfg, rd, rets[0].id, rets[0].ast.value, depth=3)
+        t = src(e)
+        okk = None
+        if isinstance(e, ast.Call) and call_name(e) == "tree_map" and len(e.args) == 3 and src(e.args[0]).split(".")[-1] in ("multiply", "mul"):
+            ops = [src(a) for a in e.args[1:]]
+            nrm = [a for a in e.args[1:] if isinstance(a, ast.Call) and call_name(a) == "random_like"]
+            okk = "mass_matrix_sqrt" in ops and len(nrm) == 1 and any(k.arg == "rng" and src(k.value).endswith("random.normal") for k in nrm[0].keywords) \
+                and any(k.arg == "primals" and src(k.value) == "mass_matrix_sqrt" for k in nrm[0].keywords)
+        ctx.check("R32.2", key, okk, t[:200], sm)
+
+
+def r32_3(ctx, m):
+    """multinomial / biased progressive sampling: the candidate in the TRUE slot of select() is weighted by its own tree"""
+    ctx.rule("R32.3", "candidate selection: in merge_trees and add_single_qp_to_tree the Bernoulli probability of the candidate in "
+                      "the true slot of select() is expit(w_true - w_false) (unbiased) or min(1, exp(w_true - w_false)) (biased), "
+                      "with w the log-weight of the tree each candidate comes from; the merged log-weight is logaddexp of both", floor=5)
+    mt = m.func(MOD, "merge_trees")
+    ctx.saw_func(mt)
+    bias = mt.params()[4] if len(mt.params()) >= 5 else None
+    for val in (True, False):
+        sp = Spec(m, None, mt, {bias: val}).run() if bias else None
+        key = f"{mt.key}::bias_transition={val}"
+        if sp is None:
+            ctx.und("R32.3", key, "signature changed", mt)
+            continue
+        _selection_check(ctx, mt, key, sp_env=sp, biased=val)
+    aq = m.func(MOD, "add_single_qp_to_tree")
+    ctx.saw_func(aq)
+    _selection_check(ctx, aq, f"{aq.key}::single endpoint", sp_env=None, biased=False)
+    # merged weight
+    for fi in (mt, aq):
+        cfg = cfg_of(fi)
+        rd = cfg.reaching_defs(fi.params())
+        found = []
+        for n in cfg.nodes:
+            if n.kind == "stmt" and isinstance(n.ast, ast.Return) and n.ast.value is not None:
+                e = inline_at(cfg, rd, n.id, n.ast.value, depth=2)
+                if isinstance(e, ast.Call) and call_name(e) == "Tree":
+                    args = {k.arg: k.value for k in e.keywords}
+                    lw = args.get("logweight") or (e.args[2] if len(e.args) > 2 else None)
+                    found.append(lw)
+        okk = bool(found) and all(isinstance(lw, ast.Call) and call_name(lw) == "logaddexp" and len(lw.args) == 2 for lw in found)
+        ctx.check("R32.3", f"{fi.key}::merged log-weight = logaddexp(both log-weights)", okk if found else None,
+                  "; ".join(src(lw) for lw in found if lw is not None), fi)
+
+
+from ..modespec import Spec  # noqa: E402
+
+
+def _weight_of(slot, fi, cfg, rd, nid):
+    """log-weight expression belonging to the candidate expression in a select slot"""
+    if isinstance(slot, ast.Attribute) and slot.attr == "proposal_candidate":
+        return f"{src(slot.value)}.logweight"
+    return None
+
+
+def _selection_check(ctx, fi, key, sp_env, biased):
+    cfg = cfg_of(fi)
+    rd = cfg.reaching_defs(fi.params())
+    sels = []
+    from ..util import find_nodes
+    for n, c in find_nodes(cfg, lambda q: isinstance(q, ast.Call) and call_name(q) == "select" and len(q.args) == 3):
+        cond = inline_at(cfg, rd, n.id, c.args[0], depth=1)
+        if isinstance(cond, ast.Call) and call_name(cond) == "bernoulli" and len(cond.args) >= 2:
+            sels.append((n, c, cond))
+    if len(sels) != 1:
+        ctx.und("R32.3", key, f"{len(sels)} select(bernoulli(...), a, b) sites", fi)
+        return
+    n, c, cond = sels[0]
+    wt, wf = _weight_of(c.args[1], fi, cfg, rd, n.id), _weight_of(c.args[2], fi, cfg, rd, n.id)
+    # probability expression: specialised (merge_trees) or inlined
+    pname = cond.args[1]
+    if sp_env is not None and isinstance(pname, ast.Name):
+        cands = [e for e in (sp_env.final_env_values(pname.id) if hasattr(sp_env, "final_env_values") else [])]
+    else:
+        cands = []
+    if not cands:
+        # collect the reaching definitions of the probability that are consistent with the mode
+        exprs = []
+        if isinstance(pname, ast.Name):
+            for d in sorted((rd.get(n.id) or {}).get(pname.id, ())):
+                dn = cfg.nodes[d]
+                if dn.kind == "stmt" and isinstance(dn.ast, ast.Assign):
+                    from ..util import known_atoms
+                    atoms = known_atoms(cfg, dn.id)
+                    pol = [p for t, p in atoms if src(t) == (fi.params()[4] if len(fi.params()) >= 5 else "")]
+                    if sp_env is not None and pol and pol[0] != biased:
+                        continue
+                    exprs.append(dn.ast.value)
+        else:
+            exprs.append(pname)
+        cands = exprs
+    if len(cands) != 1:
+        ctx.und("R32.3", key, f"{len(cands)} candidate probability expressions", fi)
+        return
+    p = cands[0]
+    # unwrap
+    diff = None
+    form = None
+    if isinstance(p, ast.Call) and call_name(p) == "expit" and len(p.args) == 1:
+        diff, form = p.args[0], "expit"
+    elif isinstance(p, ast.Call) and call_name(p) == "minimum" and len(p.args) == 2:
+        one, ex = p.args
+        if _const(one) != 1:
+            one, ex = ex, one
+        if _const(one) == 1 and isinstance(ex, ast.Call) and call_name(ex) == "exp" and len(ex.args) == 1:
+            diff, form = ex.args[0], "min1exp"
+    if diff is None or not (isinstance(diff, ast.BinOp) and isinstance(diff.op, ast.Sub)):
+        ctx.und("R32.3", key, f"probability `{src(p)}` not of the form expit(a-b) / minimum(1, exp(a-b))", fi)
+        return
+    a, b = src(diff.left), src(diff.right)
+    # a bare endpoint (qp) in a slot: its weight is the logaddexp operand that is not the other slot's weight
+    if wt is None or wf is None:
+        other = wt or wf
+        lae = [x for nn in cfg.nodes if nn.ast is not None and nn.kind == "stmt" for x in ast.walk(nn.ast)
+               if isinstance(x, ast.Call) and call_name(x) == "logaddexp" and len(x.args) == 2]
+        rest = [src(y) for x in lae for y in x.args if src(y) != other]
+        if other is None or len(set(rest)) != 1:
+            ctx.und("R32.3", key, "weights of the select slots not identified", fi)
+            return
+        if wt is None:
+            wt = rest[0]
+        else:
+            wf = rest[0]
+    want_form = "min1exp" if biased else "expit"
+    good = (a, b) == (wt, wf) and form == want_form
+    ctx.check("R32.3", key, good,
+              f"P(true slot) = {src(p)}; true slot carries weight {wt}, false slot {wf}"
+              + ("" if form == want_form else f"; expected the {'biased min(1, exp(.))' if biased else 'unbiased expit(.)'} form"), fi, c)
+
+
+def r32_4(ctx, m):
+    """PRNG key discipline"""
+    from ..util import find_nodes
+    ctx.rule("R32.4", "PRNG keys: within a function a key is consumed at most once per binding along every path (split, draw, or "
+                      "handed to a callee), and no closure mapped over pytree leaves / loop iterations consumes a captured key "
+                      "(every leaf would see the same stream)", floor=12)
+    import re
+    keyre = re.compile(r"^(sub)?key(s)?(_|$)|_key$")
+    mods = [m.module(MOD), m.module(OO), m.module("nifty.re.tree_math.forest_math")]
+    for mod in mods:
+        fns = [n for n in ast.walk(mod.tree) if isinstance(n, (ast.FunctionDef, ast.Lambda))]
+        for fn in fns:
+            if isinstance(fn, ast.Lambda):
+                continue
+            names = set()
+            for x in walk_no_nested(fn):
+                if isinstance(x, ast.Name) and keyre.search(x.id):
+                    names.add(x.id)
+            for a in fn.args.args + fn.args.kwonlyargs:
+                if keyre.search(a.arg):
+                    names.add(a.arg)
+            if not names:
+                continue
+            cfg = _cfg_node(fn)
+            params = [a.arg for a in fn.args.posonlyargs + fn.args.args + fn.args.kwonlyargs]
+            rd = cfg.reaching_defs(params)
+            qn = f"{mod.relpath}::{_qual(mod, fn)}"
+            for k in sorted(names):
+                uses = []
+                for n in cfg.nodes:
+                    if n.ast is None or n.kind in ("with_exit",):
+                        continue
+                    roots = [n.ast] if n.kind in ("stmt", "test") else []
+                    for r in roots:
+                        cnt = _count_consumes(r, k)
+                        if cnt:
+                            uses.append((n, cnt))
+                if not uses:
+                    continue
+                bad = None
+                for n, cnt in uses:
+                    if cnt > 1:
+                        bad = (n, n)
+                        break
+                if bad is None:
+                    defnodes = {d for n in cfg.nodes for d in ()}  # placeholder
+                    for n1, _ in uses:
+                        # nodes reachable after n1 without passing a redefinition of k
+                        redef = [x.id for x in cfg.nodes if k in (cfg.node_defs(x) or ())]
+                        # n1 itself may rebind k (key, sub = split(key)): then later uses see the new binding
+                        if n1.id in redef:
+                            continue
+                        reach = cfg.reachable_after(n1.id, avoid=redef, include_exc=False)
+                        for n2, _ in uses:
+                            if n2.id in reach:
+                                bad = (n1, n2)
+                                break
+                        if bad:
+                            break
+                ctx.check("R32.4", f"{qn}::key `{_role(k)}` is consumed at most once per binding", bad is None,
+                          None if bad is None else f"`{short(bad[0].ast)}` and `{short(bad[1].ast)}` consume the same key `{k}`",
+                          mod.relpath, bad[1].ast if bad else fn)
+        # closures mapped over leaves / iterations
+        for c in ast.walk(mod.tree):
+            if not (isinstance(c, ast.Call) and call_name(c) in ("tree_map", "vmap", "map", "fori_loop", "while_loop", "scan")):
+                continue
+            encl = _enclosing_function(mod.tree, c)
+            cands = list(c.args) + [k.value for k in c.keywords]
+            for a in cands:
+                target = None
+                if isinstance(a, ast.Lambda):
+                    target = a
+                elif isinstance(a, ast.Name) and encl is not None:
+                    for st in ast.walk(encl):
+                        if isinstance(st, ast.FunctionDef) and st.name == a.id and st is not encl:
+                            target = st
+                if target is None:
+                    continue
+                own = {x.arg for x in target.args.posonlyargs + target.args.args + target.args.kwonlyargs}
+                bound = {x.id for x in ast.walk(target) if isinstance(x, ast.Name) and isinstance(x.ctx, ast.Store)}
+                body = target.body if isinstance(target.body, list) else [target.body]
+                captured = sorted({x.id for b in body for x in ast.walk(b) if isinstance(x, ast.Name) and isinstance(x.ctx, ast.Load)
+                                   and keyre.search(x.id) and x.id not in own and x.id not in bound})
+                nm = getattr(target, "name", "<lambda>")
+                ctx.check("R32.4", f"{mod.relpath}::{_qual(mod, encl) if encl else '<module>'}::{call_name(c)}({nm}) does not consume a captured key",
+                          not captured, f"captures {captured}: every leaf/iteration draws from the same key" if captured else None,
+                          mod.relpath, c)
+
+
+def _role(k):
+    return k
+
+
+_cfgs = {}
+
+
+def _cfg_node(fn):
+    from ..cfg import CFG
+    c = _cfgs.get(id(fn))
+    if c is None:
+        c = _cfgs[id(fn)] = (CFG(fn), fn)
+    return c[0]
+
+
+def _qual(mod, fn):
+    # qualified name by nesting
+    path = []
+
+    def rec(node, trail):
+        for ch in ast.iter_child_nodes(node):
+            if ch is fn:
+                path.extend(trail + [getattr(fn, "name", "<lambda>")])
+                return True
+            t2 = trail + [ch.name] if isinstance(ch, (ast.FunctionDef, ast.ClassDef)) else trail
+            if rec(ch, t2):
+                return True
+        return False
+    rec(mod.tree, [])
+    return ".".join(path) or getattr(fn, "name", "?")
+
+
+def _enclosing_function(tree, node):
+    best = None
+    for f in ast.walk(tree):
+        if isinstance(f, ast.FunctionDef):
+            for x in ast.walk(f):
+                if x is node:
+                    if best is None or any(y is f for y in ast.walk(best)):
+                        best = f
+    return best
+
+
+def _count_consumes(root, k):
+    """number of times key name k is passed to a call / stored into a tuple within this statement (isinstance tests and
+    PRNGKey(seed) conversions excluded)"""
+    cnt = 0
+    skip = set()
+    for x in ast.walk(root):
+        if isinstance(x, (ast.FunctionDef, ast.Lambda)):
+            for y in ast.walk(x):
+                skip.add(id(y))
+        if isinstance(x, ast.Call) and call_name(x) in ("isinstance", "PRNGKey", "type", "repr", "str"):
+            for y in ast.walk(x):
+                skip.add(id(y))
+    for x in ast.walk(root):
+        if id(x) in skip:
+            continue
+        if isinstance(x, ast.Call):
+            for a in list(x.args) + [kw.value for kw in x.keywords]:
+                if isinstance(a, ast.Name) and a.id == k and id(a) not in skip:
+                    cnt += 1
+                if isinstance(a, ast.Starred) and isinstance(a.value, ast.Name) and a.value.id == k:
+                    cnt += 1
+    return cnt
+
+
+def r32_5(ctx, m):
+    """Metropolis test of the fixed-length HMC transition"""
+    from ..util import find_nodes
+    ctx.rule("R32.5", "generate_hmc_acc_rej: the proposal is the momentum-flipped end point of the trajectory; it is accepted with "
+                      "probability min(1, exp(H(initial) - H(proposed))); an undefined (NaN) energy difference is mapped to "
+                      "rejection (-inf); select() returns (proposed, initial) when accepted and (initial, proposed) otherwise", floor=4)
+    fi = m.func(MOD, "generate_hmc_acc_rej")
+    ctx.saw_func(fi)
+    cfg = cfg_of(fi)
+    rd = cfg.reaching_defs(fi.params())
+    sels = [(n, c) for n, c in find_nodes(cfg, lambda q: isinstance(q, ast.Call) and call_name(q) == "select" and len(q.args) == 3)]
+    key = f"{fi.key}::accept/reject"
+    if len(sels) != 1:
+        ctx.und("R32.5", key, f"{len(sels)} select sites", fi)
+        return
+    n, c = sels[0]
+    t, f = c.args[1], c.args[2]
+    if not (isinstance(t, ast.Tuple) and isinstance(f, ast.Tuple) and len(t.elts) == 2 and len(f.elts) == 2):
+        ctx.und("R32.5", key, "select slots are not pairs", fi)
+        return
+    prop, init = src(t.elts[0]), src(t.elts[1])
+    ctx.check("R32.5", f"{fi.key}::slots are (proposed, initial) when accepted and (initial, proposed) otherwise",
+              [src(x) for x in f.elts] == [init, prop] and prop != init, f"true {src(t)}, false {src(f)}", fi, c)
+    # which is the initial state: the parameter
+    params = fi.params()
+    ctx.check("R32.5", f"{fi.key}::the fallback of a rejected move is the incoming state", init in params, f"`{init}`", fi, c)
+    pe = inline_at(cfg, rd, n.id, ast.Name(id=prop, ctx=ast.Load()), depth=1)
+    ctx.check("R32.5", f"{fi.key}::the proposal is the momentum-flipped trajectory end",
+              isinstance(pe, ast.Call) and call_name(pe) == "flip_momentum", src(pe), fi)
+    cond = inline_at(cfg, rd, n.id, c.args[0], depth=1)
+    if not (isinstance(cond, ast.Call) and call_name(cond) == "bernoulli" and len(cond.args) >= 2):
+        ctx.und("R32.5", key, f"acceptance `{src(cond)}` is not a Bernoulli draw", fi)
+        return
+    pnode = n
+    p = inline_at(cfg, rd, n.id, cond.args[1], depth=1)
+    diffname = None
+    if isinstance(p, ast.Call) and call_name(p) == "minimum" and len(p.args) == 2:
+        one, ex = p.args
+        if _const(one) != 1:
+            one, ex = ex, one
+        if _const(one) == 1 and isinstance(ex, ast.Call) and call_name(ex) == "exp" and len(ex.args) == 1:
+            diffname = ex.args[0]
+    if diffname is None:
+        ctx.und("R32.5", key, f"probability `{src(p)}` is not minimum(1, exp(.))", fi)
+        return
+    # chase the definitions of the difference: [where(isnan(d), C, d)]* ; d = H(init) - H(prop)
+    guard_consts = []
+    e = diffname
+    at = None
+    for dn in cfg.nodes:
+        if dn.kind == "stmt" and isinstance(dn.ast, ast.Assign) and isinstance(dn.ast.targets[0], ast.Name) and isinstance(diffname, ast.Name) \
+                and dn.ast.targets[0].id == diffname.id:
+            v = dn.ast.value
+            if isinstance(v, ast.Call) and call_name(v) == "where" and len(v.args) == 3 and "isnan" in src(v.args[0]):
+                guard_consts.append((v.args[1], dn))
+            elif isinstance(v, ast.BinOp) and isinstance(v.op, ast.Sub):
+                at = (v, dn)
+    if at is None:
+        ctx.und("R32.5", key, "definition of the energy difference not found", fi)
+        return
+    v, dn = at
+
+    def arg_of(call):
+        return src(call.args[0]) if isinstance(call, ast.Call) and len(call.args) == 1 else None
+    same_fn = isinstance(v.left, ast.Call) and isinstance(v.right, ast.Call) and src(v.left.func) == src(v.right.func)
+    ctx.check("R32.5", f"{fi.key}::energy difference is H(initial) - H(proposed)",
+              same_fn and arg_of(v.left) == init and arg_of(v.right) == prop, src(v), fi, dn.ast)
+    if not guard_consts:
+        ctx.und("R32.5", f"{fi.key}::NaN energy difference means rejection", "no NaN guard found", fi)
+    for cst, gn in guard_consts:
+        ctx.check("R32.5", f"{fi.key}::NaN energy difference means rejection", _is_neg_inf(cst),
+                  f"NaN is replaced by `{src(cst)}`; min(1, exp({src(cst)})) must be 0", fi, gn.ast)
+    # total energy = potential(position) + kinetic(momentum)
+    te = m.func(MOD, "total_energy_of_qp")
+    rr = [x for x in walk_no_nested(te.node) if isinstance(x, ast.Return)]
+    a0, pe_, ke_ = te.params()[:3]
+    okk = len(rr) == 1 and isinstance(rr[0].value, ast.BinOp) and isinstance(rr[0].value.op, ast.Add) and \
+        {src(rr[0].value.left), src(rr[0].value.right)} == {f"{pe_}({a0}.position)", f"{ke_}({a0}.momentum)"}
+    ctx.check("R32.5", f"{te.key}::H = V(position) + K(momentum)", okk, src(rr[0].value) if rr else None, te)
+
+
+_run_c32b = run
+
+
+def run(ctx):  # noqa: F811
+    _run_c32b(ctx)
+    r32_2(ctx, ctx.model)
+    r32_3(ctx, ctx.model)
+    r32_4(ctx, ctx.model)
+    r32_5(ctx, ctx.model)
